@@ -64,7 +64,7 @@ Definition err_eqb (a b : err) : bool :=
   | ValueError, ValueError | AssertionError, AssertionError | IndexError, IndexError | KeyError, KeyError
   | RuntimeError, RuntimeError | NotImplementedErr, NotImplementedErr | InvalidMutator, InvalidMutator
   | InvalidBackgroundVariant, InvalidBackgroundVariant | InvalidConfig, InvalidConfig
-  | InvalidPamVariant, InvalidPamVariant | SysExit1, SysExit1 | OtherErr, OtherErr => true
+  | InvalidPamVariant, InvalidPamVariant | InvalidTargetonRegion, InvalidTargetonRegion | SysExit1, SysExit1 | OtherErr, OtherErr => true
   | _, _ => false
   end.
 
